@@ -25,12 +25,14 @@ fn plan(tier: Tier) -> Vec<Unit> {
             let mut v = crate::util::split_budget("convert", 1_000_000, 10_000);
             v.extend(crate::util::split_budget("small", 40_001, 1_000));
             v.extend(crate::util::split_budget("construct", 40_000, 1_000));
+            v.extend(crate::util::split_budget("pow10", 401, 20));
             v
         }
         Tier::Thorough => {
             let mut v = crate::util::split_budget("convert", 120_000_000, 100_000);
             v.extend(crate::util::split_budget("small", 40_001, 500));
             v.extend(crate::util::split_budget("construct", 3_000_000, 10_000));
+            v.extend(crate::util::split_budget("pow10", 401, 20));
             v
         }
         Tier::Miri => {
@@ -97,6 +99,26 @@ fn run_unit(unit: &Unit, r: &mut Rng, ctx: &mut Ctx) {
                 let d = gen_value(r);
                 let case = Case::new("convert").push(d.tok());
                 check_case(&case, ctx);
+            }
+        }
+        "pow10" => {
+            // exhaustive: m * 10^k written with k fractional zeros (an integer), the same plus one unit in the last
+            // place (not an integer), and m with scale -k, for k = 0..=400, m in {+-1, +-2, 5, 10, 25, 99} and the
+            // machine-word boundary integers for k <= 45
+            let w = gen::word_values();
+            for idx in unit.start..unit.start + unit.count {
+                let k = idx as i64;
+                let mut ms: Vec<BigInt> = [1i64, -1, 2, -2, 5, 10, 25, 99].iter().map(|m| BigInt::from(*m)).collect();
+                if k <= 45 { ms.extend(w.iter().cloned()); }
+                for m in &ms {
+                    for d in [Dec::new(m * pow10(k as u64), k), Dec::new(m * pow10(k as u64) + 1, k), Dec::new(m.clone(), -k)] {
+                        let case = Case::new("convert").push(d.tok());
+                        check_case(&case, ctx);
+                    }
+                }
+            }
+            if unit.start == 0 {
+                ctx.exhaustive_notes.push("C15 powers of ten: m*10^k at scale k, m*10^k + 1 at scale k, m at scale -k for k = 0..400, m in {+-1, +-2, 5, 10, 25, 99}; machine-word boundary integers m for k <= 45".into());
             }
         }
         "small" => {
